@@ -271,3 +271,285 @@ Proof.
     + rewrite B1. reflexivity.
     + rewrite B2, A1. apply filter_remm_cons.
 Qed.
+
+(* ---- _register_persistent: on the objects it is the re-keying loop of _restore_snapshot *)
+Lemma find_ext : forall {A} (p q : A -> bool) l, (forall x, In x l -> p x = q x) -> find p l = find q l.
+Proof.
+  intros A p q l H. induction l as [|a l IH]; cbn; auto.
+  rewrite (H a) by (left; auto). destruct (q a); auto. apply IH. intros; apply H; right; auto.
+Qed.
+Lemma im_other_ext : forall s t o, (forall x, objs s x = objs t x) -> nobj s = nobj t -> im_other s o = im_other t o.
+Proof.
+  intros s t o H Hn. unfold im_other, all_objs. rewrite H, Hn. destruct (okey (objs t o)); auto.
+  apply find_ext. intros x _. rewrite H. reflexivity.
+Qed.
+Lemma im_replace_objs : forall s o x, objs (im_replace o s) x =
+  if Nat.eqb x o then o_in (objs s o) true
+  else match im_other s o with
+       | Some o' => if Nat.eqb x o' then o_in (objs s o') false else objs s x
+       | None => objs s x
+       end.
+Proof.
+  intros s o x. unfold im_replace. destruct (im_other s o) as [o'|] eqn:E.
+  - destruct (im_other_some _ _ _ E) as [_ [Hne _]].
+    destruct (Nat.eqb_spec x o).
+    + subst. rewrite objs_mod_same. rewrite objs_mod_other by auto. reflexivity.
+    + rewrite objs_mod_other by auto. destruct (Nat.eqb_spec x o').
+      * subst. rewrite objs_mod_same. reflexivity.
+      * rewrite objs_mod_other by auto. reflexivity.
+  - destruct (Nat.eqb_spec x o).
+    + subst. rewrite objs_mod_same. reflexivity.
+    + rewrite objs_mod_other by auto. reflexivity.
+Qed.
+Lemma im_replace_ext : forall s t o, (forall x, objs s x = objs t x) -> nobj s = nobj t ->
+  forall x, objs (im_replace o s) x = objs (im_replace o t) x.
+Proof.
+  intros s t o H Hn x. rewrite !im_replace_objs. rewrite (im_other_ext s t o H Hn). rewrite !H.
+  destruct (im_other t o); rewrite ?H; reflexivity.
+Qed.
+
+Lemma im_replace_fields : forall o s,
+  nobj (im_replace o s) = nobj s /\ snew (im_replace o s) = snew s /\ sdel (im_replace o s) = sdel s /\
+  work (im_replace o s) = work s /\ committed (im_replace o s) = committed s /\ saves (im_replace o s) = saves s /\
+  nfid (im_replace o s) = nfid s /\ eoc (im_replace o s) = eoc s /\ handles (im_replace o s) = handles s /\
+  stack (im_replace o s) = stack s.
+Proof. intros o s. unfold im_replace. destruct (im_other s o); repeat split; reflexivity. Qed.
+
+Lemma obj_key_eta : forall ob k, okey ob = Some k -> o_key ob (Some k) = ob.
+Proof. intros [a b c d e f0 g0 h i j] k H. cbn in *. subst. reflexivity. Qed.
+
+Lemma im_other_ext' : forall s t o, (forall x, x <> o -> objs s x = objs t x) ->
+  okey (objs s o) = okey (objs t o) -> nobj s = nobj t -> im_other s o = im_other t o.
+Proof.
+  intros s t o H Hk Hn. unfold im_other, all_objs. rewrite Hk, Hn. destruct (okey (objs t o)); auto.
+  apply find_ext. intros x _. destruct (Nat.eqb_spec x o); [reflexivity|]. rewrite H by auto. reflexivity.
+Qed.
+Lemma im_replace_ext' : forall s t o, (forall x, x <> o -> objs s x = objs t x) ->
+  okey (objs s o) = okey (objs t o) -> o_in (objs s o) true = o_in (objs t o) true -> nobj s = nobj t ->
+  forall x, objs (im_replace o s) x = objs (im_replace o t) x.
+Proof.
+  intros s t o H Hk Ho Hn x. rewrite !im_replace_objs. rewrite (im_other_ext' s t o H Hk Hn).
+  destruct (Nat.eqb_spec x o); [exact Ho|].
+  destruct (im_other t o) as [o'|] eqn:E; [|apply H; auto].
+  destruct (im_other_some _ _ _ E) as [_ [Hne _]].
+  destruct (Nat.eqb_spec x o'); [subst; rewrite H by auto; reflexivity|apply H; auto].
+Qed.
+
+Lemma register_sim : forall o s t ik ks, (forall x, objs s x = objs t x) -> nobj s = nobj t ->
+  odid (objs s o) = Some ik -> ks_find o ks = Some (ik, ik) ->
+  exists s', register_one o s = (Ok, s') /\
+    (forall x, objs s' x = objs (restore_ks_one [] ks o t) x) /\
+    nobj s' = nobj s /\ snew s' = snew s /\ sdel s' = sdel s /\ work s' = work s /\ committed s' = committed s /\
+    saves s' = saves s /\ nfid s' = nfid s /\ eoc s' = eoc s /\ handles s' = handles s /\
+    stack s' = match stack s with
+               | [] => []
+               | f0 :: r =>
+                   match okey (objs s o) with
+                   | Some k => if Z.eqb k ik then f0 :: r
+                               else f_ks f0 (ks_set o (match ks_find o (fks f0) with Some (old, _) => old | None => k end, ik) (fks f0)) :: r
+                   | None => f0 :: r
+                   end
+               end.
+Proof.
+  intros o s t ik ks H Hn Hd Hk. unfold register_one. rewrite Hd. unfold restore_ks_one. rewrite Hk. cbn [mem existsb].
+  set (t2 := mod_obj (safe_discard o t) o (fun ob => o_key ob (Some ik))).
+  assert (T2o : objs t2 o = o_key (o_in (objs t o) false) (Some ik)).
+  { unfold t2. rewrite objs_mod_same. unfold safe_discard. rewrite objs_mod_same. reflexivity. }
+  assert (T2x : forall y, y <> o -> objs t2 y = objs t y).
+  { intros y Hy. unfold t2. rewrite objs_mod_other by auto. unfold safe_discard. rewrite objs_mod_other; auto. }
+  assert (T2n : nobj t2 = nobj t) by reflexivity.
+  destruct (okey (objs s o)) as [k|] eqn:Ek.
+  - destruct (Z.eqb_spec k ik).
+    + subst k. eexists. split; [reflexivity|].
+      split; [|destruct (im_replace_fields o s) as [F1 [F2 [F3 [F4 [F5 [F6 [F7 [F8 [F9 F10]]]]]]]]];
+               rewrite F1, F2, F3, F4, F5, F6, F7, F8, F9, F10; destruct (stack s); repeat split; reflexivity].
+      apply im_replace_ext'.
+      * intros y Hy. rewrite T2x by auto. apply H.
+      * rewrite T2o. cbn. exact Ek.
+      * rewrite T2o. rewrite <- H. rewrite <- (obj_key_eta (objs s o) ik Ek) at 1. reflexivity.
+      * congruence.
+    + set (h := fun f0 : frame => f_ks f0 (ks_set o (match ks_find o (fks f0) with Some (old, _) => old | None => k end, ik) (fks f0))).
+      destruct (upd_head_fields (safe_discard o s) h) as [X0 [X1 [X2 [X3 [X4 [X5 [X6 [X7 [X8 [X9 X10]]]]]]]]]].
+      set (s2 := mod_obj (upd_head (safe_discard o s) h) o (fun ob => o_key ob (Some ik))).
+      eexists. split; [reflexivity|]. fold h. fold s2.
+      assert (S2o : objs s2 o = o_key (o_in (objs s o) false) (Some ik)).
+      { unfold s2. rewrite objs_mod_same. rewrite X0. unfold safe_discard. rewrite objs_mod_same. reflexivity. }
+      assert (S2x : forall y, y <> o -> objs s2 y = objs s y).
+      { intros y Hy. unfold s2. rewrite objs_mod_other by auto. rewrite X0. unfold safe_discard. rewrite objs_mod_other; auto. }
+      split.
+      * apply im_replace_ext'.
+        -- intros y Hy. rewrite S2x, T2x by auto. apply H.
+        -- rewrite S2o, T2o. reflexivity.
+        -- rewrite S2o, T2o, H. reflexivity.
+        -- unfold s2. cbn. rewrite X1. cbn. exact Hn.
+      * destruct (im_replace_fields o s2) as [F1 [F2 [F3 [F4 [F5 [F6 [F7 [F8 [F9 F10]]]]]]]]].
+        rewrite F1, F2, F3, F4, F5, F6, F7, F8, F9, F10. unfold s2. cbn.
+        rewrite X1, X2, X3, X4, X5, X6, X7, X8, X9, X10. cbn. destruct (stack s); repeat split; reflexivity.
+  - eexists. split; [reflexivity|].
+    set (s2 := mod_obj s o (fun ob => o_key ob (Some ik))).
+    split.
+    + apply im_replace_ext'.
+      * intros y Hy. unfold s2. rewrite objs_mod_other by auto. rewrite T2x by auto. apply H.
+      * unfold s2. rewrite objs_mod_same, T2o. reflexivity.
+      * unfold s2. rewrite objs_mod_same, T2o, H. reflexivity.
+      * unfold s2. cbn. exact Hn.
+    + destruct (im_replace_fields o s2) as [F1 [F2 [F3 [F4 [F5 [F6 [F7 [F8 [F9 F10]]]]]]]]].
+      rewrite F1, F2, F3, F4, F5, F6, F7, F8, F9, F10. unfold s2. cbn. destruct (stack s); repeat split; reflexivity.
+Qed.
+
+(* register_one / restore_ks_one leave primary-key values and other objects' keys alone *)
+Lemma restore_ks_one_keeps : forall E ks o s x,
+  odid (objs (restore_ks_one E ks o s) x) = odid (objs s x) /\
+  (x <> o -> okey (objs (restore_ks_one E ks o s) x) = okey (objs s x)).
+Proof.
+  intros E ks o s x. unfold restore_ks_one. destruct (ks_find o ks) as [[old nw]|]; [|auto].
+  set (s2 := mod_obj (safe_discard o s) o (fun ob => o_key ob (Some old))).
+  assert (A : odid (objs s2 x) = odid (objs s x) /\ (x <> o -> okey (objs s2 x) = okey (objs s x))).
+  { unfold s2. destruct (Nat.eqb_spec x o).
+    - subst. rewrite objs_mod_same. unfold safe_discard. rewrite objs_mod_same. split; [reflexivity|congruence].
+    - rewrite objs_mod_other by auto. unfold safe_discard. rewrite objs_mod_other by auto. auto. }
+  destruct (mem o E); [exact A|].
+  rewrite im_replace_objs. destruct A as [A1 A2].
+  destruct (Nat.eqb_spec x o).
+  - subst. cbn. split; [exact A1|congruence].
+  - destruct (im_other s2 o) as [o'|]; [|auto].
+    destruct (Nat.eqb_spec x o'); [subst; cbn; auto|auto].
+Qed.
+
+(* the key-switch record _register_persistent leaves in the frame *)
+Definition ks_after (key0 : nat -> option Z) (ikof : nat -> Z) (l : list nat) (fk : list (nat * (Z * Z))) :=
+  fold_left (fun fk o =>
+    match key0 o with
+    | Some k => if Z.eqb k (ikof o) then fk
+                else ks_set o (match ks_find o fk with Some (old, _) => old | None => k end, ikof o) fk
+    | None => fk
+    end) l fk.
+
+Lemma register_fold : forall ks (ikof : nat -> Z) l s t f0 rest,
+  (forall x, objs s x = objs t x) -> nobj s = nobj t -> stack s = f0 :: rest -> NoDup l ->
+  (forall o, In o l -> odid (objs s o) = Some (ikof o) /\ ks_find o ks = Some (ikof o, ikof o)) ->
+  exists s', foldM register_one l s = (Ok, s') /\
+    (forall x, objs s' x = objs (fold_left (fun s o => restore_ks_one [] ks o s) l t) x) /\
+    nobj s' = nobj s /\ snew s' = snew s /\ sdel s' = sdel s /\ work s' = work s /\ committed s' = committed s /\
+    saves s' = saves s /\ nfid s' = nfid s /\ eoc s' = eoc s /\ handles s' = handles s /\
+    stack s' = f_ks f0 (ks_after (fun o => okey (objs s o)) ikof l (fks f0)) :: rest.
+Proof.
+  intros ks ikof. induction l as [|o l IH]; intros s t f0 rest H Hn Hs Hnd Hl.
+  - exists s. cbn. repeat split; auto. rewrite Hs. destruct f0; reflexivity.
+  - inversion Hnd; subst. destruct (Hl o (or_introl eq_refl)) as [Hd Hk].
+    destruct (register_sim o s t (ikof o) ks H Hn Hd Hk) as [s1 [E1 [O1 [N1 [A1 [A2 [A3 [A4 [A5 [A6 [A7 [A8 A9]]]]]]]]]]]].
+    rewrite Hs in A9.
+    set (f1 := match okey (objs s o) with
+               | Some k => if Z.eqb k (ikof o) then f0
+                           else f_ks f0 (ks_set o (match ks_find o (fks f0) with Some (old, _) => old | None => k end, ikof o) (fks f0))
+               | None => f0 end).
+    assert (S1 : stack s1 = f1 :: rest).
+    { rewrite A9. unfold f1. destruct (okey (objs s o)); [destruct (Z.eqb _ _)|]; reflexivity. }
+    assert (Keep : forall x, odid (objs s1 x) = odid (objs s x) /\ (x <> o -> okey (objs s1 x) = okey (objs s x))).
+    { intros x. rewrite O1. destruct (restore_ks_one_keeps [] ks o t x) as [B1 B2]. rewrite B1. rewrite H. split; auto. }
+    destruct (IH s1 (restore_ks_one [] ks o t) f1 rest O1) as [s' [E' [O' [N' [B1 [B2 [B3 [B4 [B5 [B6 [B7 [B8 B9]]]]]]]]]]]].
+    + rewrite N1. destruct (restore_ks_one [] ks o t) eqn:E. 
+      unfold restore_ks_one in E. rewrite Hk in E. cbn [mem existsb] in E.
+      destruct (im_replace_fields o (mod_obj (safe_discard o t) o (fun ob => o_key ob (Some (ikof o))))) as [F1 _].
+      rewrite E in F1. cbn in F1. cbn. congruence.
+    + exact S1.
+    + exact H3.
+    + intros x Hx. destruct (Keep x) as [K1 _]. rewrite K1. apply Hl. right; auto.
+    + exists s'. cbn [foldM]. rewrite (bind_ok _ _ _ _ E1). split; [exact E'|].
+      split; [exact O'|]. repeat split; try congruence.
+      rewrite B9. unfold ks_after. cbn [fold_left].
+      assert (X : fks f1 = match okey (objs s o) with
+                  | Some k => if Z.eqb k (ikof o) then fks f0
+                              else ks_set o (match ks_find o (fks f0) with Some (old, _) => old | None => k end, ikof o) (fks f0)
+                  | None => fks f0 end).
+      { unfold f1. destruct (okey (objs s o)); [destruct (Z.eqb _ _)|]; reflexivity. }
+      rewrite X.
+      assert (Y : f_ks f1 = f_ks f0). { unfold f1. destruct (okey (objs s o)); [destruct (Z.eqb _ _)|]; reflexivity. }
+      rewrite Y. f_equal. f_equal.
+      (* the keys of the remaining objects are still the original ones *)
+      clear - Keep H2. revert H2. generalize (match okey (objs s o) with
+                  | Some k => if Z.eqb k (ikof o) then fks f0
+                              else ks_set o (match ks_find o (fks f0) with Some (old, _) => old | None => k end, ikof o) (fks f0)
+                  | None => fks f0 end).
+      induction l as [|a l IHl]; intros fk Hni; cbn; auto.
+      destruct (Keep a) as [_ K2]. rewrite K2 by (intros X; subst; apply Hni; left; auto).
+      apply IHl. intros X; apply Hni; right; auto.
+Qed.
+
+Lemma fold_ks_filter : forall E ks (P : nat -> bool) l s,
+  (forall x, In x l -> P x = false -> ks_find x ks = None) ->
+  fold_left (fun s o => restore_ks_one E ks o s) l s =
+  fold_left (fun s o => restore_ks_one E ks o s) (filter P l) s.
+Proof.
+  intros E ks P. induction l as [|a l IH]; intros s H; cbn; auto.
+  destruct (P a) eqn:Ea; cbn.
+  - apply IH. intros; apply H; auto. right; auto.
+  - unfold restore_ks_one at 2. rewrite (H a) by (auto; left; auto). apply IH. intros; apply H; auto. right; auto.
+Qed.
+
+Lemma ks_find_map : forall (h : nat -> Z * Z) l o,
+  ks_find o (map (fun x => (x, h x)) l) = if mem o l then Some (h o) else None.
+Proof.
+  intros h l o. induction l as [|a l IH]; cbn; auto.
+  rewrite (Nat.eqb_sym o a). destruct (Nat.eqb_spec a o); [subst; reflexivity|]. exact IH.
+Qed.
+
+(* commit_one on the frame *)
+Lemma commit_one_objs : forall o s x, objs (commit_one o s) x = if Nat.eqb x o then commit_obj (objs s o) else objs s x.
+Proof.
+  intros o s x. unfold commit_one.
+  set (s1 := mod_obj s o commit_obj).
+  assert (E : objs s1 x = if Nat.eqb x o then commit_obj (objs s o) else objs s x).
+  { unfold s1. destruct (Nat.eqb_spec x o); [subst; apply objs_mod_same|apply objs_mod_other; auto]. }
+  destruct (mem o (snew s1));
+    match goal with |- objs (upd_head ?S ?h) x = _ => destruct (upd_head_fields S h) as [X _]; rewrite X end; exact E.
+Qed.
+Lemma commit_fold_rest : forall l s f0 rest, stack s = f0 :: rest ->
+  let s' := fold_left (fun s o => commit_one o s) l s in
+  exists fn fd, stack s' = f_dirty (f_new f0 fn) fd :: rest /\
+    (forall x, mem x fn = mem x (fnew f0) || (mem x l && mem x (snew s))) /\
+    (forall x, mem x fd = mem x (fdirty f0) || (mem x l && negb (mem x (snew s)))) /\
+    snew s' = snew s /\ sdel s' = sdel s /\ nobj s' = nobj s /\ work s' = work s /\ committed s' = committed s /\
+    saves s' = saves s /\ nfid s' = nfid s /\ eoc s' = eoc s /\ handles s' = handles s.
+Proof.
+  induction l as [|o l IH]; intros s f0 rest Hs; cbn [fold_left].
+  - exists (fnew f0), (fdirty f0). rewrite Hs. split; [destruct f0; reflexivity|].
+    split; [intros; cbn; rewrite orb_false_r; reflexivity|].
+    split; [intros; cbn; rewrite orb_false_r; reflexivity|]. repeat split; reflexivity.
+  - set (s1 := commit_one o s).
+    assert (A : exists f1, stack s1 = f1 :: rest /\ fdel f1 = fdel f0 /\ fks f1 = fks f0 /\ fid f1 = fid f0 /\
+                  fnested f1 = fnested f0 /\ fstate f1 = fstate f0 /\ frbexc f1 = frbexc f0 /\ fconn f1 = fconn f0 /\
+                  (forall x, mem x (fnew f1) = mem x (fnew f0) || (Nat.eqb x o && mem o (snew s))) /\
+                  (forall x, mem x (fdirty f1) = mem x (fdirty f0) || (Nat.eqb x o && negb (mem o (snew s)))) /\
+                  snew s1 = snew s /\ sdel s1 = sdel s /\ nobj s1 = nobj s /\ work s1 = work s /\ committed s1 = committed s /\
+                  saves s1 = saves s /\ nfid s1 = nfid s /\ eoc s1 = eoc s /\ handles s1 = handles s).
+    { unfold s1, commit_one. cbn [snew mod_obj set_obj set_objs].
+      destruct (mem o (snew s)) eqn:Em.
+      - match goal with |- exists f1, stack (upd_head ?S ?h) = _ /\ _ =>
+          destruct (upd_head_fields S h) as [X0 [X1 [X2 [X3 [X4 [X5 [X6 [X7 [X8 [X9 X10]]]]]]]]]] end.
+        cbn in X10. rewrite Hs in X10. eexists. split; [exact X10|]. cbn -[mem].
+        rewrite X1, X2, X3, X4, X5, X6, X7, X8, X9. cbn -[mem].
+        repeat split; auto.
+        + intros x. rewrite mem_addm. rewrite andb_true_r. apply orb_comm.
+        + intros x. rewrite andb_false_r, orb_false_r. reflexivity.
+      - match goal with |- exists f1, stack (upd_head ?S ?h) = _ /\ _ =>
+          destruct (upd_head_fields S h) as [X0 [X1 [X2 [X3 [X4 [X5 [X6 [X7 [X8 [X9 X10]]]]]]]]]] end.
+        cbn in X10. rewrite Hs in X10. eexists. split; [exact X10|]. cbn -[mem].
+        rewrite X1, X2, X3, X4, X5, X6, X7, X8, X9. cbn -[mem].
+        repeat split; auto.
+        + intros x. rewrite andb_false_r, orb_false_r. reflexivity.
+        + intros x. rewrite mem_addm. rewrite andb_true_r. apply orb_comm. }
+    destruct A as [f1 [S1 [D1 [K1 [I1 [N1 [T1 [R1 [C1 [Fn1 [Fd1 [A1 [A2 [A3 [A4 [A5 [A6 [A7 [A8 A9]]]]]]]]]]]]]]]]]]].
+    destruct (IH s1 f1 rest S1) as [fn [fd [B0 [B1 [B2 [B3 [B4 [B5 [B6 [B7 [B8 [B9 [B10 B11]]]]]]]]]]]]].
+    exists fn, fd. split.
+    + rewrite B0. destruct f1, f0; cbn in *. subst. reflexivity.
+    + split; [|split; [|repeat split; congruence]].
+      * intros x. rewrite B1, Fn1, A1. cbn [mem existsb]. fold (mem x l).
+        destruct (Nat.eqb_spec x o); subst; cbn; destruct (mem o (snew s)), (mem o l); cbn;
+          rewrite ?orb_true_r, ?orb_false_r; auto;
+          try (destruct (mem x (fnew f0)), (mem x l), (mem x (snew s)); reflexivity).
+      * intros x. rewrite B2, Fd1, A1. cbn [mem existsb]. fold (mem x l).
+        destruct (Nat.eqb_spec x o); subst; cbn; destruct (mem o (snew s)), (mem o l); cbn;
+          rewrite ?orb_true_r, ?orb_false_r; auto;
+          try (destruct (mem x (fdirty f0)), (mem x l), (mem x (snew s)); reflexivity).
+Qed.
